@@ -181,6 +181,17 @@ CLAIMED = {
         note="composed Lean model tied by correspondence; G-conf grammar defines 'conforming'; search decides the identity.",
         technique="composed Lean 4 model validated by differential correspondence + round-trip search with shrinking",
         design="6/C07"),
+    "C10": dict(
+        category="translation_validation",
+        text="Decided by search on the real pipeline: mutation-XSS shaped inputs -> parse -> sanitize+serialize (random options) "
+             "-> re-parse as document and as fragment in 13 containers x scripting on/off; the default allow-lists, the "
+             "no-comment rule and the browser-scheme rule are evaluated on the re-parsed tree by direct traversal. Every stage "
+             "has a Lean model tied to /repo by its own correspondence (sanitizer C09, serializer C08, tokenizer C02, tree "
+             "construction C01); proved here only that the sanitizer sits before optional-tag omission and after attribute "
+             "sorting in the extracted pipeline. The composed safety theorem is not proved.",
+        note="search on the real code; component models tied separately; composition not proved.",
+        technique="component Lean models + end-to-end re-parse safety search on the real code",
+        design="6/C10"),
 }
 
 PENDING_REASON = "check under construction in this round: model/theorems not yet committed (see DESIGN section 8); not claimed"
